@@ -371,6 +371,9 @@ fn replay(args: &[String]) -> i32 {
                     if !all_ok {
                         ev["fast"] = json!(false);
                     }
+                    if let Some(st) = case.get("styles") {
+                        ev["styles"] = st.clone();
+                    }
                     writeln!(w, "{}", ev).unwrap();
                     traced += 1;
                 }
